@@ -1,7 +1,140 @@
-(* C17 - on-disk tables and write-ahead logs round-trip exactly. Statements only. *)
-From RV Require Import Model.SstTable Model.WriteRun Model.WalCodec Proofs.C17_WriteRun.
+(* C17 - on-disk tables and write-ahead logs round-trip exactly. Statements only; proofs in Proofs/C17_*.v.
+   Conventions: [entry_ok e] = key and value lengths < 2^32 and sequence number < 2^64 (the widths of the length and
+   sequence fields; NO condition on the bytes themselves); [norm e] = e with the value of a tombstone dropped (the
+   format stores no value for a tombstone); [keys_sorted] = strictly ascending keys (bytes.Compare). *)
+From RV Require Import Model.SstTable Model.WriteRun Model.WalCodec.
+From RV Require Import Proofs.C17_Codec Proofs.C17_Table Proofs.C17_Bloom Proofs.C17_Reopen Proofs.C17_WriteRun
+        Proofs.C17_WriteRun2 Proofs.C17_Wal Proofs.C17_Get Proofs.C17_History Proofs.C17_Main.
 Open Scope N_scope.
 
-Theorem write_run_concat : forall es target, 1 <= target -> concat (write_run es target) = es.
-Proof. exact C17_WriteRun.write_run_concat. Qed.
-Print Assumptions write_run_concat.
+(* ---------- entry codec ---------- *)
+Theorem parse_serialize : forall es, Forall entry_ok es -> parse_body (ser_entries es) = Some (map norm es).
+Proof. exact C17_Codec.parse_serialize. Qed.
+Print Assumptions parse_serialize.
+
+Theorem parse_serialize_exact : forall es,
+  Forall entry_ok es -> Forall (fun e => e_del e = true -> e_val e = []) es -> parse_body (ser_entries es) = Some es.
+Proof. exact C17_Codec.parse_serialize_exact. Qed.
+Print Assumptions parse_serialize_exact.
+
+(* ---------- point lookup ---------- *)
+(* run_ok es = Forall entry_ok es /\ keys_sorted es = true /\ blen (ser_entries es) < 2^32 (uint32 index offsets) *)
+Theorem table_get_is_find : forall es key, run_ok es -> table_get (write_table es) key = get_spec es key.
+Proof. exact C17_Main.table_get_is_find. Qed.
+Print Assumptions table_get_is_find.
+
+Theorem table_get_reopen_is_find : forall es key,
+  run_ok es -> table_get (reopen (write_table es)) key = get_spec es key.
+Proof. exact C17_Main.table_get_reopen_is_find. Qed.
+Print Assumptions table_get_reopen_is_find.
+
+Theorem table_get_never_panics : forall es key, run_ok es ->
+  table_get (write_table es) key <> GPanic /\ table_get (write_table es) key <> GErr.
+Proof. exact C17_Main.table_get_never_panics. Qed.
+Print Assumptions table_get_never_panics.
+
+(* every table of a split run answers lookups and scans, fresh and re-opened, with exactly its chunk of the run *)
+Theorem write_run_tables_read_back : forall es target, 1 <= target -> run_ok es ->
+  Forall (fun c => run_ok c /\
+                   (forall key, table_get (write_table c) key = get_spec c key) /\
+                   (forall key, table_get (reopen (write_table c)) key = get_spec c key) /\
+                   (forall p, table_scan_prefix (write_table c) p = Some (scan_spec c p)) /\
+                   (forall p, table_scan_prefix (reopen (write_table c)) p = Some (scan_spec c p)))
+         (write_run es target).
+Proof. exact C17_Main.write_run_tables_read_back. Qed.
+Print Assumptions write_run_tables_read_back.
+
+(* ---------- prefix scan ---------- *)
+Theorem table_scan_is_filter : forall es p,
+  Forall entry_ok es -> table_scan_prefix (write_table es) p = Some (scan_spec es p).
+Proof. exact C17_Table.table_scan_is_filter. Qed.
+Print Assumptions table_scan_is_filter.
+
+Theorem table_scan_reopen_is_filter : forall es p,
+  Forall entry_ok es -> blen (ser_entries es) < 4294967296 ->
+  table_scan_prefix (reopen (write_table es)) p = Some (scan_spec es p).
+Proof. exact C17_Reopen.table_scan_reopen_is_filter. Qed.
+Print Assumptions table_scan_reopen_is_filter.
+
+(* ---------- re-opening from the Document ---------- *)
+Theorem reopen_same : forall es,
+  blen (ser_entries es) < 4294967296 -> table_meta (reopen (write_table es)) = table_meta (write_table es).
+Proof. exact C17_Reopen.reopen_loads_writer_metadata. Qed.
+Print Assumptions reopen_same.
+
+(* ---------- bloom filter ---------- *)
+Theorem bloom_no_false_negative : forall size hashes keys k,
+  0 < size -> size + 63 < 4294967296 -> In k keys -> bf_might_have (bf_add_all (bf_new size hashes) keys) k = true.
+Proof. exact C17_Bloom.bloom_no_false_negative. Qed.
+Print Assumptions bloom_no_false_negative.
+
+Theorem bloom_of_table_no_false_negative : forall es e, In e es -> bf_might_have (bloom_of es) (e_key e) = true.
+Proof. exact C17_Bloom.bloom_of_no_false_negative. Qed.
+Print Assumptions bloom_of_table_no_false_negative.
+
+Theorem bloom_decode_encode : forall bf r, bloom_wf bf -> bf_decode (bf_encode bf ++ r) = Some (bf, r).
+Proof. exact C17_Bloom.bf_decode_encode. Qed.
+Print Assumptions bloom_decode_encode.
+
+(* ---------- WriteRun ---------- *)
+Theorem write_run_partition : forall es target, 1 <= target ->
+  concat (write_run es target) = es /\ write_run es target <> [] /\
+  (es <> [] -> Forall (fun c => c <> []) (write_run es target)) /\
+  size_rule target (write_run es target).
+Proof. exact C17_Main.write_run_partition. Qed.
+Print Assumptions write_run_partition.
+
+Theorem write_run_ranges : forall es target, 1 <= target -> keys_sorted es = true -> es <> [] ->
+  ranges_ascending (write_run es target) /\ Forall (fun c => keys_sorted c = true) (write_run es target).
+Proof. exact C17_WriteRun2.write_run_ranges. Qed.
+Print Assumptions write_run_ranges.
+
+Theorem write_run_globally_ordered : forall es target, 1 <= target -> keys_sorted es = true ->
+  forall pre c mid c' post, write_run es target = pre ++ c :: mid ++ c' :: post ->
+  forall x y, In x c -> In y c' -> bltb (e_key x) (e_key y) = true.
+Proof. exact C17_WriteRun2.write_run_globally_ordered. Qed.
+Print Assumptions write_run_globally_ordered.
+
+(* ---------- WAL ---------- *)
+Theorem wal_replays_suffix : forall s0 pre after,
+  Forall wop_ok pre ->
+  s0 + N.of_nat (length (appended pre)) < 18446744073709551616 ->
+  after + 1 < 18446744073709551616 ->
+  (forall s, In (WTrunc s) pre -> s <= after) ->
+  s0 <= after -> after <= s0 + N.of_nat (length (appended pre)) ->
+  exists es, wal_read_all (w_file (ws_w (wrun s0 pre))) after = WOk es /\
+             map strip_seq es = skipn (N.to_nat (after - s0)) (appended pre).
+Proof. exact C17_Wal.wal_replays_suffix. Qed.
+Print Assumptions wal_replays_suffix.
+
+Theorem wal_saved_file : forall s0 pre,
+  ws_saved (wrun s0 (pre ++ [WRotate])) = w_file (ws_w (wrun s0 pre)) :: ws_saved (wrun s0 pre).
+Proof. exact C17_Wal.saved_file_is_w_file. Qed.
+Print Assumptions wal_saved_file.
+
+(* ---------- the code before the repairs violated the property (witnesses on the old models) ---------- *)
+Theorem old_get_panics_before_first_key_refuted :
+  exists es key, Forall entry_ok es /\ keys_sorted es = true /\ blen (ser_entries es) < 4294967296 /\
+                 find_key key es = None /\ table_get_old (write_table es) key = GPanic.
+Proof. exact C17_History.old_get_panics_before_first_key. Qed.
+Print Assumptions old_get_panics_before_first_key_refuted.
+
+Theorem old_rotate_loses_entries_refuted : exists s0 pre after,
+  (forall s, In (WTrunc s) pre -> s <= after) /\ s0 <= after /\ after <= s0 + N.of_nat (length (appended pre)) /\
+  wal_read_all (w_file (ws_w (wrun_gen false s0 pre))) after = WPanic.
+Proof. exact C17_Wal.rotate_without_carry_loses_entries. Qed.
+Print Assumptions old_rotate_loses_entries_refuted.
+
+Theorem old_write_run_emits_empty_table_refuted :
+  exists es target, 1 <= target /\ es <> [] /\ In [] (write_run_old es target).
+Proof. exact C17_WriteRun2.write_run_old_emits_empty_table. Qed.
+Print Assumptions old_write_run_emits_empty_table_refuted.
+
+(* ---------- non-vacuity ---------- *)
+Example run_ok_satisfiable : run_ok [mkE [] [1;2] 7 false; mkE [0] [] 3 true; mkE [0;255] [] 9 false].
+Proof. split; [repeat constructor; vm_compute; reflexivity|]. split; vm_compute; reflexivity. Qed.
+
+Example run_ok_example :
+  let es := [mkE [] [1;2] 7 false; mkE [0] [] 3 true; mkE [0;255] [] 9 false] in
+  Forall entry_ok es /\ keys_sorted es = true /\ parse_body (ser_entries es) = Some es.
+Proof. cbn zeta. split; [repeat constructor; vm_compute; reflexivity|]. split; vm_compute; reflexivity. Qed.
